@@ -104,7 +104,8 @@ TraceNext ==
   /\ Trace[l].a # "End"
   /\ l' = l + 1
   /\ LET e == Trace[l] IN
-     IF e.a = "Open" THEN st' = Init0 /\ hy' = Hyb(Init0, e.st) /\ Conform(e, Init0, e.st)
+     IF e.a = "Open" THEN LET i0 == [Init0 EXCEPT !.fm = e.args.fm, !.we = e.args.we] IN
+                          st' = i0 /\ hy' = Hyb(i0, e.st) /\ Conform(e, i0, e.st)
      ELSE LET s0 == WithClock(st, e)
               ok == GuardOf(e, s0)
               s1 == IF ok THEN NextOf(e, s0) ELSE Clr(s0)
